@@ -100,7 +100,17 @@ class Stack(Sequence[T]):
         """Drop the last snapshot."""
         if self.lengths:
             item_count, remained_count = self.lengths.pop()
-            del self.popped[item_count - remained_count :]
+            popped_count = item_count - remained_count
+            start = len(self.popped) - popped_count
+            if self.lengths:
+                # Items popped from below an outer snapshot's level must stay
+                # recoverable by that snapshot.
+                outer_count, outer_remained = self.lengths[-1]
+                keep = min(max(outer_remained - remained_count, 0), popped_count)
+                del self.popped[start : start + popped_count - keep]
+                self.lengths[-1] = (outer_count, min(outer_remained, remained_count))
+            else:
+                del self.popped[start:]
 
     def restore(self) -> None:
         """Rewind the stack to the most recent snapshot.
